@@ -277,6 +277,16 @@ def handle_gen(rng, tier):
             if l.startswith("http") or l.startswith("fasthttp"):
                 client = rng.choice(["-", "192.0.2.%d" % rng.randrange(256), "203.0.113.7", "2001:db8:1:2:3:4:5:%x" % rng.randrange(65536),
                                      "::ffff:198.51.100.%d" % rng.randrange(256), "::1", "fe80::1"])
+                hv = ""
+                if rng.random() < 0.06:
+                    # the client-address header as a LIST (the first element counts) or with a value that is no address:
+                    # the request must be answered 400 and nothing may be forwarded on its behalf
+                    if rng.random() < 0.4:
+                        client = "198.51.100.%d,10.0.0.%d" % (rng.randrange(256), rng.randrange(256))
+                    else:
+                        client = rng.choice(["203.0.113.7:4711", "unknown,198.51.100.1", "[2001:db8::1]", "203.0.113", "x",
+                                             "198.51.100.300", "0x7f.1.1.1", "1.2.3.4.5", ",1.2.3.4"])
+                        hv = " hv=bad"
             u = rng.random()
             if u < 0.05:
                 up = "reply:" + gens.hx(gen_reply(rng, name, qtype, qclass, k4=True))
@@ -300,7 +310,8 @@ def handle_gen(rng, tier):
                 dl = " dl=%d" % rng.choice([1200, 1600, 2500])
                 delayed_budget -= 1
                 tag = "s"
-            out.append("%s%d cfg=%s l=%s client=%s q=%s up=%s%s" % (tag, idx, spec, l, client, gens.hx(q), up, dl))
+            out.append("%s%d cfg=%s l=%s client=%s q=%s up=%s%s%s" % (tag, idx, spec, l, client, gens.hx(q), up, dl,
+                                                             hv if (l.startswith("http") or l.startswith("fasthttp")) else ""))
         if ci == 1:
             # boundary configuration #1 forwards every name and starts every listener kind: frame-size boundary
             zs, idx = size_boundary_cases(rng, spec, idx)
@@ -328,6 +339,11 @@ def handle_compare(ir, mr):
 
 def handle_oracle(line, res):
     f = gens.fields(res)
+    if " hv=bad" in line:
+        # a client-address header that is no address: 400 and nothing forwarded on the request's behalf
+        if f.get("st") != "http-400" or f.get("upq", "-") != "-":
+            return "a DoH request whose client-address header is no address was not refused with 400 / was forwarded: " + res[:120]
+        return None
     if f.get("late") == "1":
         return "response later than the 6 s request deadline plus 1.5 s slack"
     if res.startswith("st=") and f.get("st") != "ok":
